@@ -26,6 +26,7 @@ Anything the reader does not understand makes that class `unparsed` (flag `parse
 definition, an entry in `unparsed`): this is NOT an alarm, the class then relies on the correspondence tie only.
 """
 import ast
+import re
 import copy
 import json
 import os
@@ -109,7 +110,10 @@ class Subst(ast.NodeTransformer):
 
 
 def norm(node, env):
-    return ast.unparse(Subst(env).visit(copy.deepcopy(node)))
+    txt = ast.unparse(Subst(env).visit(copy.deepcopy(node)))
+    # `self._arg_value(m)` (fix bb4bae7) is `self.args[m]` read through the value parser (engineering suffixes):
+    # the same component parameter as far as the stamp is concerned
+    return re.sub(r'self\._arg_value\((\d+)\)', r'self.args[\1]', txt)
 
 
 def ignorable(st):
